@@ -37,7 +37,7 @@ MANDATORY = ['aware-times', 'time-without-seconds', 'all-timed', 'explicit-start
 
 def check(ro):
     fails = []
-    rc = ro.xml.find('roCreate')
+    rc = ET.fromstring(str(ro)).find('roCreate')   # independent parse, not the library's own tree
     xs = [c for c in rc if c.tag == 'story']
 
     def mism(what, exp, got):
@@ -185,9 +185,13 @@ def timed_ro(draw):
     xml = B.tostring(B.envelope(B.ro_create('RO1', stories, ed_start=ed), 5))
     # in a quarter of the documents every time carries the same UTC offset (all aware)
     zone = draw(st.sampled_from(['', '', '', '+01:00', '-05:30', '+00:00', 'Z']))
+    # ... or only the running-order start carries one, the explicit story times are written without
+    # (each accessor still returns the time as written; the relations only ever combine a time with
+    # a duration, never an aware with a naive time)
+    which = 'roEdStart' if zone and draw(st.integers(0, 3)) == 0 else 'roEdStart|StoryStarted|StoryEnded'
     if zone:
         import re
-        xml = re.sub(r'(<(roEdStart|StoryStarted|StoryEnded)>)(\d{4}-\d\d-\d\dT[0-9:.]+)(</)',
+        xml = re.sub(r'(<(' + which + r')>)(\d{4}-\d\d-\d\dT[0-9:.]+)(</)',
                      lambda m_: m_.group(1) + m_.group(3) + zone + m_.group(4), xml)
     return {'ro_xml': xml}
 
